@@ -44,7 +44,7 @@ Section WithSig.
   Variable sig_id : Sg -> N.
 
   Notation sigrr := (sigrr Sg).
-  Notation default_rrset := (default_rrset Sg verify).
+  Notation rrset_verdict := (rrset_verdict Sg verify).
   Notation cache_key := (cache_key Sg sig_id).
   Notation validate_group := (validate_group Sg verify sig_id).
 
@@ -56,7 +56,7 @@ Section WithSig.
     cache_key (q_qname r) (q_qtype r) (q_kname r) (q_ktype r) (q_rs r) (q_sigs r).
   (* the verdict computed from scratch *)
   Definition fresh (r : greq) : gres :=
-    default_rrset (q_lookup r) (q_qname r) (q_qtype r) (q_kname r) (q_ktype r) (q_rs r) (q_sigs r) (q_now r).
+    rrset_verdict (q_lookup r) (q_qname r) (q_qtype r) (q_kname r) (q_ktype r) (q_rs r) (q_sigs r) (q_now r).
   (* received TTL of the first record = lifetime of the cache entry in seconds *)
   Definition first_ttl (r : greq) : N := match q_rs r with [] => 0 | f :: _ => r_ttl f end.
 
